@@ -150,15 +150,25 @@ pub fn verify_readback(cfg: &BuilderConfig, b: &BuiltPkg, o: &mut Outcome) -> Re
             let e = hits[0];
             let what = |x: &str| format!("file {want_path:?} {x}");
             expect_eq!(o, "file-mode", what("mode"), e.mode.raw_mode(), f.expected_mode());
-            expect_eq!(o, "file-owner", what("user"), e.ownership.user.clone(), f.user.clone().unwrap_or_else(|| "root".into()));
-            expect_eq!(o, "file-owner", what("group"), e.ownership.group.clone(), f.group.clone().unwrap_or_else(|| "root".into()));
+            // only supplied values are claimed by the statement (defaults are the library's business)
+            if let Some(u) = &f.user {
+                expect_eq!(o, "file-owner", what("user"), e.ownership.user.clone(), u.clone());
+            }
+            if let Some(g) = &f.group {
+                expect_eq!(o, "file-owner", what("group"), e.ownership.group.clone(), g.clone());
+            }
             expect_eq!(o, "file-flags", what("flags"), e.flags.bits(), f.expected_flag_bits());
             if let Some(c) = &f.caps {
                 expect_eq!(o, "file-caps", what("caps"), e.caps.clone(), Some(c.clone()));
             }
-            expect_eq!(o, "file-link", what("link target"), e.linkto.clone(), f.symlink.clone().unwrap_or_default());
+            if let Some(t) = &f.symlink {
+                expect_eq!(o, "file-link", what("link target"), e.linkto.clone(), t.clone());
+            }
             expect_eq!(o, "file-size", what("size"), e.size, content.len());
-            expect_eq!(o, "file-digest", what("digest"), e.digest.as_ref().map(|d| d.as_hex().to_string()), Some(digests::sha256_hex(&[content])));
+            // content digest: claimed for regular files (directories and links have no content)
+            if f.expected_mode() & 0o170000 == 0o100000 {
+                expect_eq!(o, "file-digest", what("digest"), e.digest.as_ref().map(|d| d.as_hex().to_string()), Some(digests::sha256_hex(&[content])));
+            }
             let want_mtime = match cfg.source_date {
                 Some(sd) => f.mtime.min(sd),
                 None => f.mtime,
